@@ -90,6 +90,32 @@ func init() {
 		from := Users[o.A].Address
 		return submit(n, &nom.AccountBlock{BlockType: nom.BlockTypeUserSend, Address: from, ToAddress: Users[o.B].Address, TokenStandard: zts, Amount: amountFor(n, from, zts, o.V)})
 	}
+	// Tneg: the same transfer as Tx, but the in-memory amount carries a minus sign when the signed block is handed to the
+	// node the way ledger.publishRawTransaction does (supervisor.ApplyBlock, then inserted as an own block). Hash,
+	// signature and wire encoding only cover the magnitude, so the sign is invisible to everything but big.Int arithmetic.
+	Extra["Tneg"] = func(n *vnode.Node, o Op) (out string) {
+		defer func() {
+			if r := recover(); r != nil {
+				out = "panic"
+			}
+		}()
+		zts := tokenFor(n, o.T)
+		from := Users[o.A].Address
+		tx, err := n.Generate(&nom.AccountBlock{BlockType: nom.BlockTypeUserSend, Address: from, ToAddress: Users[o.B].Address, TokenStandard: zts, Amount: amountFor(n, from, zts, o.V)})
+		if err != nil {
+			return "err:" + err.Error()
+		}
+		blk := tx.Block
+		blk.Amount = new(big.Int).Neg(blk.Amount)
+		tx2, err := n.Sup.ApplyBlock(blk)
+		if err != nil {
+			return "err:" + err.Error()
+		}
+		insert := n.Chain.AcquireInsert("ops Tneg")
+		err = n.Chain.AddAccountBlockTransaction(insert, tx2)
+		insert.Unlock()
+		return res(tx2.Block, err)
+	}
 	// Rwrong: account A tries to receive the oldest pending send addressed to account B
 	Extra["Rwrong"] = func(n *vnode.Node, o Op) string {
 		h := OldestPending(n, Users[o.B].Address, 0)
